@@ -85,7 +85,16 @@ def _matrix_src():
             "as": st.sampled_from(["list", "array", "array_native"]),
             "rows": st.lists(st.lists(entry, min_size=n, max_size=n), min_size=n, max_size=n),
         })
-    return st.integers(1, 5).flatmap(for_n)
+    # 0/1 matrices (adjacency-like) in further element types: python bools, numpy bool / uint8 / int8 arrays
+    bit = st.sampled_from([0, 1, 1])
+
+    def for_n01(n):
+        return st.fixed_dictionaries({
+            "kind": st.just("matrix"),
+            "as": st.sampled_from(["list_bool", "array_bool", "array_uint8", "array_native", "list"]),
+            "rows": st.lists(st.lists(bit, min_size=n, max_size=n), min_size=n, max_size=n),
+        })
+    return st.one_of(st.integers(1, 5).flatmap(for_n), st.integers(1, 5).flatmap(for_n), st.integers(2, 5).flatmap(for_n01))
 
 
 def cases():
@@ -558,6 +567,12 @@ def _matrix_to_qubo(qv, spec, rec):
     elif how == "array":
         arg = np.array(rows, dtype=float)
         keep = arg.copy()
+    elif how == "list_bool":
+        arg = [[bool(v) for v in r] for r in rows]
+        keep = [list(r) for r in arg]
+    elif how in ("array_bool", "array_uint8"):
+        arg = np.array(rows, dtype=bool if how == "array_bool" else np.uint8)
+        keep = arg.copy()
     else:
         arg = np.array(rows)          # integer dtype when every entry is an int
         keep = arg.copy()
@@ -574,7 +589,7 @@ def _matrix_to_qubo(qv, spec, rec):
     if bad is not None:
         raise Violation("function_differs/matrix_to_qubo", "at %r: x.M.x = %r, result %r; %s" %
                         (ref.assignment(list(range(n)), bad, False), tq[bad], tr[bad], detail))
-    same = (arg == keep) if how == "list" else np.array_equal(arg, keep)
+    same = (arg == keep) if how in ("list", "list_bool") else np.array_equal(arg, keep)
     if not same:
         raise Violation("source_changed/matrix_to_qubo", detail)
     offdiag = any(rows[i][j] for i in range(n) for j in range(n) if i != j)
